@@ -19,6 +19,7 @@ package c14
 
 import (
 	"fmt"
+	"go/token"
 	"os"
 	"sort"
 	"strings"
@@ -59,6 +60,7 @@ const (
 var badRule = map[string]string{
 	"IO1Bad": "IO-1", "IO2Bad": "IO-2", "IO2BreakBad": "IO-2", "IO2EOFBad": "IO-2", "IO2WroteBad": "IO-2", "IO3Bad": "IO-3", "IO3LogBad": "IO-3",
 	"IO4Bad": "IO-4", "IO5Bad": "IO-5", "PRE1Bad": "PRE-1", "STK1Bad": "STK-1", "IO2CountAfterAdvanceBad": "IO-2",
+	"PRE3Bad": "PRE-3", "CNT1Bad": "CNT-1", "CNT1CopyBad": "CNT-1",
 	"TOK1Bad": "TOK-1", "TOK1OffByOneBad": "TOK-1", "PRE2Bad": "PRE-2",
 }
 
@@ -169,6 +171,27 @@ func run(c *props.Ctx) {
 		}
 	}
 
+	// decode helpers that read nothing themselves but are handed scanner-line tokens (ply.listAsciiPropertyReader.Read):
+	// CNT-1's merge detection applies to them as well
+	for _, fn := range a.fns {
+		if a.reading[fn] || (!reach[fn] && !c.P.IsControl(fn.Pos())) {
+			continue
+		}
+		hasTok := false
+		for _, p := range fn.Params {
+			if a.tokParam()[p] {
+				hasTok = true
+			}
+		}
+		if !hasTok {
+			continue
+		}
+		fi := a.info(fn)
+		a.cnt1(fi, func(rule, construct string, pos token.Pos, v ob.Verdict, msg string, facts ...string) {
+			all = append(all, finding{rule: rule, construct: construct, pos: pos, verdict: v, msg: msg, facts: facts, fn: fn})
+		})
+	}
+
 	// deterministic order: by file, line, rule, construct (token.Pos values depend on the parse order of the loader)
 	type sk struct {
 		file string
@@ -258,7 +281,7 @@ func run(c *props.Ctx) {
 				c.R.Control("IO", "control:good:"+name, controlFile, got, ob.Holds, "accepted idiom must stay silent "+why)
 			}
 		}
-		for _, rule := range []string{"IO-1", "IO-2", "IO-3", "IO-4", "IO-5", "PRE-1", "PRE-2", "TOK-1", "STK-1"} {
+		for _, rule := range []string{"IO-1", "IO-2", "IO-3", "IO-4", "IO-5", "PRE-1", "PRE-2", "PRE-3", "TOK-1", "CNT-1", "STK-1"} {
 			if !seenBad[rule] {
 				c.R.Control(rule, "control:bad:missing", controlFile, ob.Holds, ob.Violation, "no positive control found for the rule")
 			}
@@ -281,6 +304,7 @@ func run(c *props.Ctx) {
 	c.R.Floor("PRE-1", 7)
 	c.R.Floor("PRE-2", 7)
 	c.R.Floor("TOK-1", 2)
+	c.R.Floor("CNT-1", 15)
 	if nPrims < 18 {
 		c.R.Failf("vacuity: only %d input-primitive call sites found in the five decoder packages (confirmed by hand: 4 Scan + 18 ReadFull/binary.Read + 2 gzip.NewReader)", nPrims)
 	}
